@@ -109,6 +109,31 @@ def set_rules(ctx):
     ctx.check('SET-2', 'sanitize_table_name|no-dot-dot-component', (not dot) or strips_dot,
               'dots are %s' % ('not kept' if not dot else 'kept but leading dots are stripped'),
               'src/disk_store/storage.rs')
+    # escaped and unescaped directory names are disjoint: an escaped name starts with a character
+    # that an unescaped (= unmodified) name can never start with, i.e. one the cleaning strips
+    fmts = [m for m in find(fn, 'macro') if m.get('path') == 'format']
+    first = None
+    for m in fmts:
+        for a in m.get('args', [])[:1]:
+            lit = a.get('str') if a.get('k') == 'lit' else None
+            if lit is None:
+                lit = next((x.get('str') for x in walk(a) if isinstance(x, dict) and x.get('str') is not None), None)
+            if lit:
+                first = lit[0]
+    if first is None:
+        fs = [x for x in astlib.strings_in(fn, ast) if '{' in x]
+        first = fs[0][0] if fs else None
+    stripped = set()
+    for t in trims:
+        stripped |= {n.get('char') for n in walk(t) if isinstance(n, dict) and n.get('k') == 'lit' and n.get('char')}
+    rejected = {c for c in (first or '') if not eval_char_pred(cl[0]['body'], var, c)}
+    ctx.check('SET-2', 'sanitize_table_name|escaped-names-disjoint-from-plain-names',
+              first is not None and (first in stripped or first in rejected),
+              'escaped names start with %r; plain (unmodified) names can never start with it because the '
+              'cleaning %s' % (first, 'strips leading %s' % sorted(stripped) if first in stripped else
+                               ('removes it' if first in rejected else
+                                'keeps it: a table literally named like another table\'s escaped directory '
+                                'shares that directory')), 'src/disk_store/storage.rs')
     lims = [int(n['rhs']['int']) for n in find(fn, 'binary') if n['op'] in ('>', '>=') and
             n['rhs'].get('k') == 'lit' and 'int' in n['rhs']]
     ctx.check('SET-2', 'sanitize_table_name|length-bound', bool(lims) and max(lims) + 2 + 64 <= 255,
